@@ -290,7 +290,7 @@ func spec(r *eng.Run) eng.SeqSpec {
 		}
 	}
 	th := r.Thorough()
-	return eng.SeqSpec{Configs: cfgs, New: func(c string) eng.Sys { return newSys(c, th) }, Depth: eng.Pick(r, 6, 12)}
+	return eng.SeqSpec{Configs: cfgs, New: func(c string) eng.Sys { return newSys(c, th) }, Depth: eng.Pick(r, 6, 12), CheckEveryStep: true}
 }
 
 func main() {
